@@ -2,7 +2,7 @@
 C01 — accepted Wuffs programs never go out of bounds / overflow (scalar fragment),
 and the FACTS clause of C02 (every fact the checker holds is true at run time).
 
-Model: `Model/WCore/{Expr,Bounds,Stmt}.lean` (mirror of lang/check/bounds.go and
+Model: `Model/WCore/{Expr,Prove,Bounds,Stmt}.lean` (mirror of lang/check/bounds.go and
 assert.go for the scalar fragment, REPAIRED rules, see fixes/C01-*.patch);
 interval arithmetic: the C06 model and its soundness theorems (used, not restated).
 -/
@@ -87,7 +87,57 @@ example :
 example :
     bcheck [] false (.binary .plus (.var "x" ⟨.u8, none, none⟩) (.const 1)) = none := by decide
 
-/-! ## Statement layer (F1, scalar, straight-line): assignment and op-assignment
+/-! ## Arrays: the index obligations of `bcheckExprOther` (IDOpenBracket) -/
+
+/--
+**index_in_range** (C01, "never indexes outside an array", reads).  If the facts of the
+situation are true, the variables and array elements hold values of their declared
+types, and the checker accepts the element read `a[i]` (anywhere inside an accepted
+expression: `bounds_contain` gives `safe`, which contains this for every `a[i]` node),
+then `0 ≤ i < len` at run time.  The checker establishes this with `proveBinaryOp`
+(`0 <= i`, `i < len`) from the bounds of `i` and from the facts.
+-/
+theorem index_in_range {env : Env} {fs : List Expr} {a : String} {len : Nat} {ety : Ty}
+    {i : Expr} {b : IR} (hf : FactsHold env fs) (hv : varsOk env (.index a len ety i))
+    (h : bcheck fs false (.index a len ety i) = some b) :
+    0 ≤ evalI env i ∧ evalI env i < len :=
+  index_in_range' hf hv h
+
+/-- non-vacuity: `this.arr[x & 7]` on an `array[8] base.u8` is accepted (from the bounds
+of the index alone), `this.arr[x]` with `x : base.u8` only under the fact `x < 8`, and
+not without it -/
+example :
+    bcheck [] false (.index "this.arr" 8 ⟨.u8, none, none⟩
+      (.binary .amp (.var "x" ⟨.u8, none, none⟩) (.const 7))) = some (mkIR 0 255) ∧
+    bcheck [.binary .lt (.var "x" ⟨.u8, none, none⟩) (.const 8)] false
+      (.index "this.arr" 8 ⟨.u8, none, none⟩ (.var "x" ⟨.u8, none, none⟩)) = some (mkIR 0 255) ∧
+    bcheck [] false
+      (.index "this.arr" 8 ⟨.u8, none, none⟩ (.var "x" ⟨.u8, none, none⟩)) = none := by
+  decide
+
+/--
+**prove_sound** (`proveBinaryOp`, lang/check/assert.go): whatever the checker proves
+without a `via` reason — from a constant operand and the other operand's bounds, from a
+fact with the same operands and an implying operator, or from `lhs == const` — is true
+in every store that satisfies the facts.  This is the step behind every accepted plain
+`assert`, every requirement of a `via` reason and both index obligations.
+-/
+theorem prove_sound {env : Env} {fs : List Expr} {op : BOp} {l r : Expr}
+    (hf : FactsHold env fs) (hvl : varsOk env l) (hvr : varsOk env r)
+    (h : proveBinaryOp fs op l r = some true) : evalI env (.binary op l r) ≠ 0 :=
+  proveBinaryOp_sound hf hvl hvr h
+
+/-- non-vacuity: `x <= 9` is proved from the fact `x < 9` (`opImpliesOp`), `x <> 3` from
+`x == 5`, `x < 300` from the type of `x : base.u8`; `x < 5` is not proved from `x < 9` -/
+example :
+    let x : Expr := .var "x" ⟨.u8, none, none⟩
+    proveBinaryOp [.binary .lt x (.const 9)] .le x (.const 9) = some true ∧
+    proveBinaryOp [.binary .eq x (.const 5)] .ne x (.const 3) = some true ∧
+    proveBinaryOp [] .lt x (.const 300) = some true ∧
+    proveBinaryOp [.binary .lt x (.const 9)] .lt x (.const 5) = some false := by
+  decide
+
+/-! ## Statement layer (F1, straight-line): assignment and op-assignment
 
 `Situation Γ env fs`: the store respects the declared types, every fact of the
 checker's situation `fs` is true in it (C02 facts clause), the facts are well-typed
@@ -109,6 +159,33 @@ theorem facts_hold_F1 {Γ : Ctx} {env : Env} {fs fs' : List Expr} {s : Stmt}
   stmt_sound S hw h
 
 /--
+**store_in_range** (C01, "never indexes outside an array", stores).  An accepted
+`a[i] = e` / `a[i] op= e` writes inside the array: `0 ≤ i < len` in the store before the
+statement.  No aliasing hypothesis: this only needs the situation BEFORE the statement.
+-/
+theorem store_in_range {Γ : Ctx} {env : Env} {fs fs' : List Expr} {s : Stmt}
+    {a : String} {len : Nat} {ety : Ty} {i : Expr}
+    (S : Situation Γ env fs) (hs : stmtTarget s = .index a len ety i)
+    (hwl : wt Γ (.index a len ety i)) (h : checkStmt fs s = some fs') :
+    0 ≤ evalI env i ∧ evalI env i < len :=
+  store_index_in_range S hs hwl h
+
+/--
+**facts_hold_store_partial** (array-element targets).  If the situation holds before an
+accepted `a[i] = e` / `a[i] op= e`, the statement trips no monitor (index in range,
+right-hand side safe, stored value fits the element type) and the situation the checker
+continues with holds afterwards — PROVIDED nothing else the checker keeps relying on
+reads the array `a` through a different index expression (`NoAlias`, part of `wtStore`).
+`_partial`: the code has no such proviso; it drops only the facts that `Mention` the very
+expression `a[i]`, which is unsound (`index_alias_witness`; KNOWN_FINDINGS
+false-fact:mentions-index:after-store-index).
+-/
+theorem facts_hold_store_partial {Γ : Ctx} {env : Env} {fs fs' : List Expr} {s : Stmt}
+    (S : Situation Γ env fs) (hw : wtStore Γ fs s) (h : checkStmt fs s = some fs') :
+    stmtSafe env s ∧ Situation Γ (execStmt env s) fs' :=
+  store_sound S hw h
+
+/--
 **check_sound_F1_partial**: for straight-line blocks of assignments and
 op-assignments to scalar variables with pure right-hand sides of the fragment.  If
 the checker accepts the block from a situation that holds, then along the whole
@@ -120,6 +197,14 @@ theorem check_sound_F1_partial {Γ : Ctx} {env : Env} {fs fs' : List Expr} {ss :
     (S : Situation Γ env fs) (hw : ∀ s ∈ ss, wtStmt Γ s) (h : checkBlock fs ss = some fs') :
     HoldsAlong Γ fs env ss :=
   block_sound ss fs fs' env S hw h
+
+/-- the same for blocks that also store to array elements; every element store carries
+its `NoAlias` side condition (inside `wtBlock`, stated over the facts the checker holds
+just before that statement) -/
+theorem check_sound_F1_arr_partial {Γ : Ctx} {env : Env} {fs fs' : List Expr} {ss : List Stmt}
+    (S : Situation Γ env fs) (hw : wtBlock Γ fs ss) (h : checkBlock fs ss = some fs') :
+    HoldsAlong Γ fs env ss :=
+  block_sound_arr ss fs fs' env S hw h
 
 /-- corollary: the final situation holds in the final store -/
 theorem check_sound_F1_final {Γ : Ctx} :
@@ -169,6 +254,35 @@ example :
       = some [.binary .ge (.var "x" ⟨.u32, none, none⟩) (.const 1),
               .binary .le (.var "x" ⟨.u32, none, none⟩) (.const 7)] := by
   decide
+
+/-- the program of findings/C01/index-alias.wuffs, statement 2: `this.idx[args.a] = 200`
+under the fact `this.idx[0] == 1` left by statement 1 -/
+def aliasFacts : List Expr :=
+  [.binary .eq (.index "this.idx" 8 ⟨.u8, none, none⟩ (.const 0)) (.const 1)]
+def aliasStore : Stmt :=
+  .assign (.index "this.idx" 8 ⟨.u8, none, none⟩ (.var "args.a" ⟨.u8, none, some 7⟩)) (.const 200)
+def aliasEnv : Env := fun k => if k = .cell "this.idx" 0 then 1 else 0
+
+/--
+**index_alias_witness** (OPEN defect of the code, KNOWN_FINDINGS
+false-fact:mentions-index:after-store-index): the model of `bcheckAssignment` — like the
+code — accepts `this.idx[args.a] = 200` and KEEPS the fact `this.idx[0] == 1`; in the
+store where `args.a == 0` the fact holds before the statement and is false after it.  So
+`facts_hold_store_partial` cannot lose its `NoAlias` hypothesis while the rule stands.
+-/
+theorem index_alias_witness :
+    checkStmt aliasFacts aliasStore = some (aliasFacts ++
+      [.binary .eq (.index "this.idx" 8 ⟨.u8, none, none⟩ (.var "args.a" ⟨.u8, none, some 7⟩))
+        (.const 200)]) ∧
+    FactsHold aliasEnv aliasFacts ∧
+    ¬ FactsHold (execStmt aliasEnv aliasStore) aliasFacts := by
+  refine ⟨by decide, ?_, ?_⟩
+  · intro f hf
+    simp only [aliasFacts, List.mem_singleton] at hf
+    subst hf
+    decide
+  · intro h
+    exact absurd (h _ (List.mem_singleton.2 rfl)) (by decide)
 
 /-- Defect witness (repaired by fixes/C01-mod-shift-left-lower-bound.patch): the
 unrepaired bounds `[lo << k, min(hi << k, max)]` of `x ~mod<< 1` for `x : base.u8` in
@@ -220,12 +334,15 @@ example : accepts [[1, 2], [3], [3], []] = true ∧ accepts [[1], [2], [0]] = fa
 -- (`bounds_contain`) and the statement level for straight-line scalar blocks
 -- (`facts_hold_F1`, `check_sound_F1_partial`).  Missing in the model (and so in the
 -- theorem): if/else with `unify` (set intersection of branch facts), while with
--- pre/inv/post, break/continue/return, asserts and the `via` reason procedures
--- (`proveBinaryOp`), arrays and the index obligations of `bcheckExprOther`
--- (IDOpenBracket), struct fields behind `this`, method calls (argument checks of
--- `bcheckExprCall`, the impure-call kill set), `checkNoRecursiveFuncs`, slices, I/O,
--- coroutines.  For those the property is covered by the search only
--- (harness/cmd/c01: monitored interpreter over the real typed AST + sanitizers).
+-- pre/inv/post, break/continue/return, asserts (the control-flow layer over this
+-- model is built by C02: Props/C02Facts), the `via` reason procedures (C02), method
+-- calls (argument checks of `bcheckExprCall`, the impure-call kill set), slices, I/O,
+-- coroutines.  In the model and proved here: all scalar expressions, array-element
+-- reads and stores with their index obligations (`index_in_range`, `store_in_range`),
+-- the prover `proveBinaryOp` (`prove_sound`), straight-line blocks
+-- (`check_sound_F1_partial`, `check_sound_F1_arr_partial`), `no_recursion`.  For the
+-- rest the property is covered by the search only (harness/cmd/c01: monitored
+-- interpreter over the real typed AST + sanitizers).
 --
 -- Known, unrepaired unsoundness of the real checker outside this fragment
 -- (KNOWN_FINDINGS.txt): index aliasing (`a[e] = v` keeps facts about `a[c]`), stale
